@@ -102,6 +102,27 @@ type Case struct {
 	// alternative assignment for the CompareRegionFit check: Alt[i] in -1..len(Rules)-1,
 	// entries that are not valid when applied in peer order become orphans.
 	Alt []int `json:"alt"`
+	// how the RegionInfo of each of the 4 FitRegion calls of the case is
+	// constructed (missing entries = directly). The logical region (peers, stores,
+	// roles, leader peer id) is the same whatever the construction.
+	Build []Build `json:"build,omitempty"`
+}
+
+// Build: How 0 = core.NewRegionInfo(meta, leader peer) as from a heartbeat;
+// 1 = the way filter.ruleFitFilter.Target does it: copies of the peers of a
+// region in which peer From still sits on store Old, a separate copy of the
+// leader record, core.NewRegionInfo(..., core.WithReplacePeerStore(Old, final store));
+// 2 = the same move by RegionInfo.Clone(core.WithReplacePeerStore(Old, final store));
+// 3 = the way filter.ruleLeaderFitFilter.Target does it: copies of the peers of a
+// region led by peer From (or by nobody), core.WithLeader(peer object of the
+// original region). From is taken modulo the number of peers of the call; Old is
+// replaced by an unused store id if a peer of the call sits on it.
+// With 1 and 2 the leader RECORD (region.GetLeader()) keeps naming store Old when
+// From is the leader; the leader PEER is the one whose id equals GetLeader().GetId().
+type Build struct {
+	How  int    `json:"how"`
+	From int    `json:"from,omitempty"`
+	Old  uint64 `json:"old,omitempty"`
 }
 
 // ---------------------------------------------------------------- generator
@@ -144,6 +165,7 @@ func mixCase(k string) string { return strings.ToUpper(k[:1]) + k[1:] }
 type flavour struct {
 	excl  int // 0 none, 1 sparse, 2 dense
 	mixed bool
+	sched bool // regions are built the way the schedulers build candidate copies; leader/follower rules frequent
 }
 
 func genStore(t *rapid.T, id uint64, fl flavour) Store {
@@ -186,7 +208,11 @@ func genStore(t *rapid.T, id uint64, fl flavour) Store {
 
 func genRule(t *rapid.T, fl flavour) Rule {
 	var r Rule
-	r.Role = rapid.SampledFrom([]string{"voter", "voter", "voter", "voter", "follower", "follower", "leader", "leader", "learner", "learner", "learner"}).Draw(t, "role")
+	roles := []string{"voter", "voter", "voter", "voter", "follower", "follower", "leader", "leader", "learner", "learner", "learner"}
+	if fl.sched {
+		roles = []string{"leader", "follower", "follower", "leader", "voter", "follower", "learner"}
+	}
+	r.Role = rapid.SampledFrom(roles).Draw(t, "role")
 	if r.Role == "leader" {
 		r.Count = 1 // adjustRule rejects leader rules with count > 1
 	} else {
@@ -240,7 +266,7 @@ func genRule(t *rapid.T, fl flavour) Rule {
 
 func genCase(t *rapid.T) Case {
 	var c Case
-	fl := flavour{excl: rapid.SampledFrom([]int{0, 0, 1, 1, 2}).Draw(t, "exclFlavour"), mixed: chance(t, 1, 4, "mixedFlavour")}
+	fl := flavour{excl: rapid.SampledFrom([]int{0, 0, 1, 1, 2}).Draw(t, "exclFlavour"), mixed: chance(t, 1, 4, "mixedFlavour"), sched: chance(t, 1, 3, "schedFlavour")}
 	ns := rapid.IntRange(3, 8).Draw(t, "nstores")
 	for i := 0; i < ns; i++ {
 		c.Stores = append(c.Stores, genStore(t, uint64(i+1), fl))
@@ -319,7 +345,7 @@ func genCase(t *rapid.T) Case {
 			}
 			c.Peers = append(c.Peers, p)
 		}
-		if c.Leader < 0 && !chance(t, 1, 8, "leaderless") {
+		if c.Leader < 0 && (fl.sched || !chance(t, 1, 8, "leaderless")) {
 			var voters []int
 			for i, p := range c.Peers {
 				if p.Role != 1 {
@@ -344,7 +370,7 @@ func genCase(t *rapid.T) Case {
 				voters = append(voters, i)
 			}
 		}
-		if len(voters) > 0 && !chance(t, 1, 8, "leaderless") {
+		if len(voters) > 0 && (fl.sched || !chance(t, 1, 8, "leaderless")) {
 			c.Leader = rapid.SampledFrom(voters).Draw(t, "leader")
 		}
 	}
@@ -358,6 +384,32 @@ func genCase(t *rapid.T) Case {
 	c.PeerIDs = rapid.Permutation(seqU(np, 21)).Draw(t, "peerIDs2")
 	for i := 0; i < np; i++ {
 		c.Alt = append(c.Alt, rapid.IntRange(0, nr).Draw(t, "alt")-1)
+	}
+	if fl.sched && np > 0 {
+		// stores without a peer (plus one id the cluster does not know)
+		free := []uint64{201}
+		for i := 1; i <= ns; i++ {
+			used := false
+			for _, p := range c.Peers {
+				used = used || p.Store == uint64(i)
+			}
+			if !used {
+				free = append(free, uint64(i))
+			}
+		}
+		for call := 0; call < 4; call++ {
+			var b Build
+			// first call built the scheduler way in most sched cases, later calls in about half
+			if call == 0 && !chance(t, 1, 4, "firstDirect") || call > 0 && chance(t, 1, 2, "laterSched") {
+				b.How = rapid.SampledFrom([]int{1, 1, 2, 3}).Draw(t, "how")
+				b.From = rapid.IntRange(0, np-1).Draw(t, "from")
+				if c.Leader >= 0 && b.How != 3 && !chance(t, 1, 4, "moveNonLeader") {
+					b.From = c.Leader // the replaced store held the leader
+				}
+				b.Old = rapid.SampledFrom(free).Draw(t, "old")
+			}
+			c.Build = append(c.Build, b)
+		}
 	}
 	return c
 }
@@ -672,21 +724,77 @@ func buildStores(c *Case, order []int) *storeSet {
 var metaRoles = []metapb.PeerRole{metapb.PeerRole_Voter, metapb.PeerRole_Learner, metapb.PeerRole_IncomingVoter, metapb.PeerRole_DemotingVoter}
 
 // buildRegion presents the peers in the given order with the given ids
-// (ids[i] belongs to case peer i). idx maps a peer id back to the case peer index.
-func buildRegion(c *Case, order []int, ids []uint64) (*core.RegionInfo, map[uint64]int) {
-	meta := &metapb.Region{Id: 1, RegionEpoch: &metapb.RegionEpoch{Version: 1, ConfVer: 1}}
+// (ids[i] belongs to case peer i), constructed as bld says (see Build). idx maps
+// a peer id back to the case peer index. The second result tells whether the
+// leader record of the region names another store than the leader peer.
+func buildRegion(c *Case, order []int, ids []uint64, bld Build) (*core.RegionInfo, map[uint64]int, bool) {
 	idx := map[uint64]int{}
-	var leader *metapb.Peer
 	for _, i := range order {
-		p := c.Peers[i]
-		mp := &metapb.Peer{Id: ids[i], StoreId: p.Store, Role: metaRoles[p.Role]}
-		meta.Peers = append(meta.Peers, mp)
 		idx[ids[i]] = i
-		if i == c.Leader {
-			leader = mp
+	}
+	mk := func(store func(i int) uint64, leaderIdx int) *core.RegionInfo {
+		meta := &metapb.Region{Id: 1, RegionEpoch: &metapb.RegionEpoch{Version: 1, ConfVer: 1}}
+		var leader *metapb.Peer
+		for _, i := range order {
+			mp := &metapb.Peer{Id: ids[i], StoreId: store(i), Role: metaRoles[c.Peers[i].Role]}
+			meta.Peers = append(meta.Peers, mp)
+			if i == leaderIdx {
+				leader = mp
+			}
+		}
+		return core.NewRegionInfo(meta, leader)
+	}
+	final := func(i int) uint64 { return c.Peers[i].Store }
+	if bld.How == 0 || len(order) == 0 {
+		return mk(final, c.Leader), idx, false
+	}
+	// the way the schedule filters copy a region before fitting a candidate
+	copyFor := func(r *core.RegionInfo, opts ...core.RegionCreateOption) *core.RegionInfo {
+		var copyLeader *metapb.Peer
+		if l := r.GetLeader(); l != nil {
+			copyLeader = &metapb.Peer{Id: l.Id, StoreId: l.StoreId, Role: l.Role}
+		}
+		var copyPeers []*metapb.Peer
+		for _, p := range r.GetPeers() {
+			copyPeers = append(copyPeers, &metapb.Peer{Id: p.Id, StoreId: p.StoreId, Role: p.Role})
+		}
+		return core.NewRegionInfo(&metapb.Region{Id: r.GetID(), Peers: copyPeers}, copyLeader, opts...)
+	}
+	from := order[bld.From%len(order)]
+	if bld.How == 3 {
+		// transfer-leader candidate: the original region is led by peer `from` (if it
+		// can lead and is not the final leader) or by nobody; the copy's leader is
+		// the original region's peer object of the final leader.
+		if c.Leader < 0 {
+			return mk(final, c.Leader), idx, false
+		}
+		pre := -1
+		if from != c.Leader && c.Peers[from].Role != 1 {
+			pre = from
+		}
+		orig := mk(final, pre)
+		target := orig.GetStorePeer(c.Peers[c.Leader].Store)
+		return copyFor(orig, core.WithLeader(target)), idx, false
+	}
+	old := bld.Old
+	for _, i := range order {
+		if c.Peers[i].Store == old || old == 0 {
+			old = 9001 // a store id nobody uses
 		}
 	}
-	return core.NewRegionInfo(meta, leader), idx
+	orig := mk(func(i int) uint64 {
+		if i == from {
+			return old
+		}
+		return c.Peers[i].Store
+	}, c.Leader)
+	var region *core.RegionInfo
+	if bld.How == 1 {
+		region = copyFor(orig, core.WithReplacePeerStore(old, c.Peers[from].Store))
+	} else {
+		region = orig.Clone(core.WithReplacePeerStore(old, c.Peers[from].Store))
+	}
+	return region, idx, from == c.Leader
 }
 
 func buildRules(c *Case) []*placement.Rule {
@@ -1001,7 +1109,15 @@ func runCase(c Case) (vkit.Info, error) {
 		ids[i] = p.ID
 	}
 	stores := buildStores(&c, seq(len(c.Stores)))
-	region, idx := buildRegion(&c, seq(len(c.Peers)), ids)
+	bld := func(call int) Build {
+		if call < len(c.Build) {
+			return c.Build[call]
+		}
+		return Build{}
+	}
+	staleLeaderRecord := false
+	region, idx, stale := buildRegion(&c, seq(len(c.Peers)), ids, bld(0))
+	staleLeaderRecord = staleLeaderRecord || stale
 	fit := placement.FitRegion(stores, region, rules)
 	asg, key, err := checkValid(w, fit, rules, idx)
 	if err != nil {
@@ -1066,7 +1182,8 @@ func runCase(c Case) (vkit.Info, error) {
 			c3.Leader = -1
 		}
 		w3 := newWorld(&c3)
-		region3, idx3 := buildRegion(&c3, seq(n-1), ids[:n-1])
+		region3, idx3, stale := buildRegion(&c3, seq(n-1), ids[:n-1], bld(1))
+		staleLeaderRecord = staleLeaderRecord || stale
 		fit3 := placement.FitRegion(stores, region3, rules)
 		_, key3, err := checkValid(w3, fit3, rules, idx3)
 		if err != nil {
@@ -1098,7 +1215,8 @@ func runCase(c Case) (vkit.Info, error) {
 	// ---- (c) metamorphic: permuted stores, permuted peers, other peer ids
 	if len(c.StorePerm) == len(c.Stores) && len(c.PeerPerm) == len(c.Peers) && len(c.PeerIDs) == len(c.Peers) {
 		stores2 := buildStores(&c, c.StorePerm)
-		region2, idx2 := buildRegion(&c, c.PeerPerm, c.PeerIDs)
+		region2, idx2, stale := buildRegion(&c, c.PeerPerm, c.PeerIDs, bld(2))
+		staleLeaderRecord = staleLeaderRecord || stale
 		rules2 := buildRules(&c)
 		fit2 := placement.FitRegion(stores2, region2, rules2)
 		_, key2, err := checkValid(w, fit2, rules2, idx2)
@@ -1128,7 +1246,8 @@ func runCase(c Case) (vkit.Info, error) {
 		for i := range rev {
 			rev[i] = n - 1 - i
 		}
-		region4, idx4 := buildRegion(&c, rev, seqU(n, 31))
+		region4, idx4, stale := buildRegion(&c, rev, seqU(n, 31), bld(3))
+		staleLeaderRecord = staleLeaderRecord || stale
 		fit4 := placement.FitRegion(stores, region4, rules)
 		_, key4, err := checkValid(w, fit4, rules, idx4)
 		if err != nil {
@@ -1225,6 +1344,13 @@ func runCase(c Case) (vkit.Info, error) {
 	info.ClassIf(exclPlaced, "exclusive-store-peer-placed")
 	info.ClassIf(mixed, "mixed-case-label")
 	info.ClassIf(c.Leader < 0 && len(c.Peers) > 0, "leaderless")
+	info.ClassIf(len(c.Build) > 0, "scheduler-built-region")
+	info.ClassIf(staleLeaderRecord, "leader-record-names-old-store")
+	strictLeaderRule := false
+	for _, r := range c.Rules {
+		strictLeaderRule = strictLeaderRule || r.Role == "leader" || r.Role == "follower"
+	}
+	info.ClassIf(staleLeaderRecord && strictLeaderRule, "leader-record-names-old-store+leader/follower-rule")
 	return info, nil
 }
 
